@@ -13,10 +13,10 @@ TRUST = ("Trusted base: go/types, go/ssa, callgraph/vta of golang.org/x/tools v0
 # id -> (technique, what is decided, declined, design ref)
 CLAIMED = {
     "C04": ("static effect analysis over go/ssa (store-origin/ownership dataflow + VTA call graph)",
-            "every store/map update/delete/append/copy reachable from Execute*/Evaluate/filters writes only per-execution or freshly allocated memory, never compiled-tree types or package variables; no reflect.Set*/unsafe; clock/random/map-order sources enumerated against documented exclusions",
+            "every store/map update/delete/append/copy reachable from Execute*/Evaluate/filters writes only per-execution or freshly allocated memory, never compiled-tree types or package variables; no reflect.Set*/unsafe; clock/random/map-order sources enumerated against documented exclusions; writes through sync/atomic count as writes; an object of a per-execution type (e.g. *Error) kept in a package-level variable is shared state, also when a registry-dispatched call hands it out",
             "equality of two renderings as observed values; user-supplied Go code", "DESIGN.md §3 C04"),
     "C05": ("static effect analysis (store-origin/ownership) + lock-region must-dataflow over go/ssa, VTA call graph",
-            "every write reachable from concurrently callable entries (Execute*, ExecuteBlocks, From*, Render*, CleanCache, filters) goes to per-execution/fresh memory, to the template under construction, or to set state under the set mutex; the cache map is accessed only under its mutex",
+            "every write reachable from concurrently callable entries (Execute*, ExecuteBlocks, From*, Render*, CleanCache, filters) goes to per-execution/fresh memory, to the template under construction, or to set state under the set mutex; the cache map is accessed only under its mutex; sync/atomic writes are synchronised; objects of per-execution types kept in package-level variables are shared and must not be written",
             "that concurrent runs return exactly the sequential outputs (observed equality); races inside user data, user funcs, loaders", "DESIGN.md §3 C05"),
     "C02": ("sink enumeration with text-provenance classification, per-incoming-edge opt-out guards, safe-bit provenance, finite truth-table evaluation of FilterApplied, who-writes-the-mode rule, escape table check",
             "every TemplateWriter sink reachable from execution writes constants/parse-time text, rendered sub-output, numbers, or a value that was escaped or passed an explicit opt-out on every incoming path; values are marked safe only for rendered/constant text, in the documented *_html filters or when unwrapping the same value; FilterApplied of operator nodes is the conjunction of the operands'; the escaping mode is written only by constructors and the autoescape tag with restore; the escape table covers & < > \" '",
@@ -25,40 +25,40 @@ CLAIMED = {
             "every TagParser invocation is reached only on the not-banned edge of a lookup of the same name in the compiling set's ban map (banned edge returns an error); every template-named filter resolution (registry lookup, ApplyFilter with a stored name) is tied to a ban check before a successful return; sub-templates compile through the referring template's set (never the default-set shortcuts); Templates are constructed only by From* with the receiver set; ban maps are written only by BanTag/BanFilter behind freeze/existence/duplicate tests; every template-creating method sets the freeze flag first",
             "nothing of the statement is left to behaviour except that custom tags/filters registered by users are outside the engine", "DESIGN.md §3 C03"),
     "C01": ("reflect typestate abstract interpretation (kind sets, interfaceability, key assignability; first-iteration partitioning; computed predicate summaries), concrete-type-set analysis, path-guard queries, reviewed panic table",
-            "every kind-restricted reflect.Value operation has its precondition established on every path; Interface() only on interfaceable values and every pongo2.Value is built from one; MapIndex only with an assignable key; every unchecked type assertion is proven by the operand's concrete types; integer division/modulo behind a zero test; explicit panic sites reachable from compile/execute are the reviewed ones; resource sinks are capped; every route into a macro body passes the depth guard; the cache mutex is paired and never re-entered",
+            "every kind-restricted reflect.Value operation has its precondition established on every path; Interface() only on interfaceable values and every pongo2.Value is built from one; MapIndex only with an assignable key; every unchecked type assertion is proven by the operand's concrete types; a pointer asserted out of caller data is dereferenced only under a nil test; integer division/modulo behind a zero test; explicit panic sites reachable from compile/execute are the reviewed ones; resource sinks are capped; every route into a macro body passes the depth guard; the cache mutex is paired and never re-entered",
             "index/slice bounds that depend on runtime integers (except the resolver's), nil-dereference freedom in general, termination/stack depth of structural recursion (self-including templates) and of the spaceless fix-point loop, user-supplied Go code", "DESIGN.md §3 C01"),
     "C08": ("reflect typestate abstract interpretation restricted to the resolver and the Value accessors, sibling cross-check, dominator/path-guard rules on the call protocol and index bounds",
             "the resolver cannot panic on any value kind (typestate); both forms of a step guard map lookups by key assignability and filter struct fields through CanInterface; the reflect Call is preceded by Kind==Func, arity, NumOut, parameter-type and validity tests with error edges and the error result is examined; Index only for 0<=i<Len(); invalid intermediates end with (empty value, nil) while scalars/non-functions are errors; no reflect conversions; Private before Public, Globals before context",
             "that a path denotes exactly the value a reference resolver computes (values are never computed)", "DESIGN.md §3 C08"),
     "C06": ("constant and provenance rules over go/ssa, call-graph reachability, constant-table check",
-            "the lexer's end-of-input marker lies outside the rune domain; emit rewrites token values only under a type test excluding TokenHTML and Val is the source slice input[start:pos]; one text node per HTML token holding that token, writing its Val changed only by flag-guarded trims; the comment tag's parser reaches no parsing function and its node does nothing; the templatetag table equals the specification and the node writes the looked-up value; tokenize() runs only on the !inVerbatim edge; after every switch into or out of verbatim mode the scanning loop restarts at its head before another rune is consumed",
+            "the lexer's end-of-input marker lies outside the rune domain; emit rewrites token values only under a type test excluding TokenHTML and Val is the source slice input[start:pos]; one text node per HTML token holding that token, writing its Val changed only by flag-guarded trims; the comment tag's parser reaches no parsing function and its node does nothing; the templatetag table equals the specification and the node writes the looked-up value; tokenize() runs only on the !inVerbatim edge; after every switch into or out of verbatim mode the scanning loop restarts at its head before another rune is consumed; what the lexer scans is the FromString/FromBytes argument or exactly io.ReadAll of the loader's reader (only string/[]byte conversions in between)",
             "lexer span arithmetic over arbitrary bytes, the concatenation homomorphism, the lexer's acceptance of every other verbatim placement as observed output", "DESIGN.md §3 C06"),
     "C09": ("effect analysis restricted to cycle/ifchanged nodes, path-guard polarity rules, loop-shape rules and linear-form (a*idx+b*count+c) evaluation of stored values over go/ssa",
-            "cycle/ifchanged keep state only in the execution context; ifequal/ifnotequal compare (first, second) and run then/else on opposite edges; if runs wrappers[i] on conditions[i] true and the else body only after the last false condition; firstof prints only a true argument and stops; for runs body/empty in their own callbacks with reversed/sorted in place; forloop fields equal their reference linear forms and conditions; IterateOrder passes an item-stepping induction variable and the item count; ifchanged evaluates all watched expressions without early exit and then replaces the remembered list, remembering copies rather than the evaluated *Value",
+            "cycle/ifchanged keep state only in the execution context; ifequal/ifnotequal compare (first, second) and run then/else on opposite edges; if runs wrappers[i] on conditions[i] true and the else body only after the last false condition; firstof prints only a true argument and stops; for runs body/empty in their own callbacks with reversed/sorted in place; forloop fields equal their reference linear forms and conditions; IterateOrder passes an item-stepping induction variable and the item count; ifchanged evaluates all watched expressions without early exit and then replaces the remembered list, remembering copies rather than the evaluated *Value; the per-rendering state map is made with the root execution context and shared by reference with every child context",
             "element order under reversed/sorted, nesting arithmetic, the rendered text", "DESIGN.md §3 C09"),
     "C16": ("provenance/pairing rules on Error and Token constructions, role-derived field anchors, path-guard rules on the lexer's column bookkeeping over go/ssa",
-            "every compile-time Error construction sets a non-empty Filename; Line and Column always come from Line/Col of the same token, Error.Token is that token and execution errors take Filename from it; lexer tokens record the start-position fields (reset by emit/ignore from the running position) and the lexer's name; next/backup move pos and col by the same width and the column restarts consistently at a newline",
+            "every compile-time Error construction sets a non-empty Filename; Line and Column always come from Line/Col of the same token, Error.Token is that token and execution errors take Filename from it; lexer tokens record the start-position fields (reset by emit/ignore from the running position) and the lexer's name; next/backup move pos and col by the same width and the column restarts consistently at a newline; a Filename that is the empty constant on some path counts as missing",
             "line/column arithmetic as values (that a reported position really is where the token text is found)", "DESIGN.md §3 C16"),
     "C18": ("unit inference (bytes vs characters) over go/ssa, idiom rules for rounding, constant-argument rules, cap/non-negativity path guards",
             "in the listed sequence/string filters and the rune primitives no comparison/arithmetic mixes byte and character quantities and no string/[]rune is indexed with the wrong unit; widthratio rounds to nearest and computes current/max*width; number parsing/printing is base 10; Repeat counts, computed widths, float precisions and lorem counts are capped by a constant with an error edge and non-negative at the sink",
             "the values of the integer/length-indexed filter families against their Django reference (slice bounds, widths, digit positions, date formats)", "DESIGN.md §3 C18"),
     "C07": ("constant-table extraction (grammar levels, operator sets, symbol table), SSA shape rules (loop vs self-call, case-label/Go-operator/operand-order agreement) and path-guard queries",
-            "precedence levels and their operator sets, operand-parsing functions and associativity match the embedded grammar; unary sign/not consumed before the first term; parser/evaluator operator agreement; each case label computes with the Go operator it names, operands in written order, time comparisons with the named method pair; and/or evaluate the second operand only on the open edge of the first's truth; division/modulo guarded by a zero test with an error edge; longest-match symbol order; decimal/%f/True-False printing and base-10 parsing; lexer enters number/identifier/string states only after accepting their own character class",
+            "precedence levels and their operator sets, operand-parsing functions and associativity match the embedded grammar; unary sign/not consumed before the first term; parser/evaluator operator agreement; each case label computes with the Go operator it names, operands in written order, time comparisons with the named method pair; and/or evaluate the second operand only on the open edge of the first's truth; division/modulo guarded by a zero test with an error edge; longest-match symbol order; decimal/%f/True-False printing and base-10 parsing; lexer enters number/identifier/string states only after accepting their own character class; every arithmetic/ordering label computes with its own Go operator on float and on integer operands (in the case or a helper it calls); expression nodes are written only by the parser function that allocates them",
             "numerical results of evaluation (values are never computed)", "DESIGN.md §3 C07"),
     "C17": ("constant-table extraction and exhaustive check of the finite tables; interval abstract interpretation over one rune variable; provenance of returned values",
-            "escape/e replacement table = exactly & < > \" ' to entities with & first (sequential non-interference, prefix-free); addslashes table with backslash first; escapejs raw set computed from the guarding comparisons = [A-Za-z] space /, every other write is \\uXXXX of the rune just read; urlencode = url.QueryEscape(input); iriencode raw iff in the constant reserved set = specification, else QueryEscape; safe returns its input",
+            "escape/e replacement table = exactly & < > \" ' to entities with & first (sequential non-interference, prefix-free); addslashes table with backslash first; escapejs raw set computed from the guarding comparisons = [A-Za-z] space /, every other write is \\uXXXX of the rune just read; urlencode = url.QueryEscape(input); iriencode raw iff in the constant reserved set = specification, else QueryEscape; safe returns its input; striptags is one ReplaceAllString with a constant pattern which, evaluated on all strings up to length 7 over {<,>,a,/,space}, leaves no complete tag",
             "striptags/removetags (regular-expression semantics)", "DESIGN.md §3 C17"),
     "C10": ("path-guard queries, effect/ownership analysis and SSA shape rules (phi/loop, index expressions) over go/ssa",
-            "extends links parent/child only behind the root-level and single-parent tests (error edges) and block registration only behind the duplicate test; compile-time stores to Template fields target only the template under construction or a freshly compiled parent (never a cached/shared one); execution runs the document of the template reached by following parent until nil; the block node walks .child from the root, executes the last definition and hands [0:len-1] to Super, which again takes the last",
+            "extends links parent/child only behind the root-level and single-parent tests (error edges) and block registration only behind the duplicate test; compile-time stores to Template fields target only the template under construction or a freshly compiled parent (never a cached/shared one); execution runs the document of the template reached by following parent until nil; the block node walks .child from the root, executes the last definition and hands [0:len-1] to Super, which again takes the last; the executor and its helpers execute no node other than the base document; every executed block definition has `block` bound to its own remaining definitions on every path",
             "the rendered text of an inheritance chain as an observed value", "DESIGN.md §3 C10"),
     "C11": ("who-may-call table over resolved callees, loop-shape and path-guard queries, argument provenance over go/ssa",
-            "file-system entry points are called only inside TemplateLoader implementations; loaders are invoked only by the set's resolver, in ascending order, first hit returns from inside the loop, total miss is an error; every name handed to FromFile/resolveTemplate is resolveFilename(<referring template>, name) on the referring set, the referring template being the parser's template or a node field that only captures it (never ctx.template, the root of the executing chain); include copies Public/Private only on the !only edge, stores with-pairs on every path and swallows a failed load only under if_exists && Sender==fromfile && Filename==<requested name>",
+            "file-system entry points are called only inside TemplateLoader implementations; loaders are invoked only by the set's resolver, in ascending order, first hit returns from inside the loop, total miss is an error; every name handed to FromFile/resolveTemplate is resolveFilename(<referring template>, name) on the referring set, the referring template being the parser's template or a node field that only captures it (never ctx.template, the root of the executing chain); include copies Public/Private only on the !only edge, stores with-pairs on every path and swallows a failed load only under if_exists && Sender==fromfile && Filename==<requested name>; tag code never reaches a cache lookup",
             "rendering equivalence of literal vs computed names; behaviour of user-supplied loaders", "DESIGN.md §3 C11"),
     "C19": ("loop-shape (induction variable, loop-carried phi), provenance and path-guard queries over go/ssa + registry extraction",
-            "both chain application sites iterate ascending, thread each output into the next input, return/write the last output, have no successful exit that skips the chain and leave the chain loop early only with an error; a filter's argument is its parameter expression evaluated with the current ctx or AsValue(nil) on all three routes; registry misses are error returns and entries are used only on the hit edge; registries are written only by Register*/Replace* behind existence tests; built-in names are distinct; chains grow only by append; the filter chain is parsed at the factor level",
+            "both chain application sites iterate ascending, thread each output into the next input, return/write the last output, have no successful exit that skips the chain and leave the chain loop early only with an error; a filter's argument is its parameter expression evaluated with the current ctx or AsValue(nil) on all three routes; registry misses are error returns and entries are used only on the hit edge; registries are written only by Register*/Replace* behind existence tests; built-in names are distinct; chains grow only by append; the filter chain is parsed at the factor level; argument expressions of for/with/macro/Super are evaluated in the enclosing context; expression nodes are written only by the parser function that allocates them",
             "equality of chain results with ApplyFilter composition as observed values", "DESIGN.md §3 C19"),
     "C12": ("static effect/ownership analysis + path-guard queries over go/ssa",
-            "no map update/delete reachable from execution targets the caller's Context, ExecutionContext.Public, TemplateSet.Globals or package-level Contexts; no reflect.Set*; every ExecutionContext gets a fresh Private map; for/with/macro/block.Super bind names and run their body in a child context; context keys are validated (identifier syntax, macro clash) with error returns before execution; Globals merged before the caller context; Private consulted before Public",
+            "no map update/delete reachable from execution targets the caller's Context, ExecutionContext.Public, TemplateSet.Globals or package-level Contexts; no reflect.Set*; every ExecutionContext gets a fresh Private map; for/with/macro/block.Super bind names and run their body in a child context; context keys are validated (identifier syntax, macro clash) with error returns before execution; Globals merged before the caller context; Private consulted before Public; every body of a scoping construct (also for's empty branch) runs in the child context; the construct's own argument expressions are evaluated in the enclosing context",
             "visibility probes as observed behaviour (which value a name shows at which point)", "DESIGN.md §3 C12"),
     "C13": ("path-guard and must-pass-through queries over go/ssa + call-graph callers (incl. closures reached by reflection)",
             "every route into a macro body increments the depth counter and is reached only on the within-cap edge of a comparison with a constant whose other edge returns an error; increments are paired with decrements on all exits; positional binding is guarded by the argument-count test (error edge), uses the same index for name and value and happens after the defaults are merged; wrappers forward the argument list unchanged; the result is AsSafeValue of the rendered body",
@@ -67,7 +67,7 @@ CLAIMED = {
             "ExecuteWriter uses the caller's writer only to flush the finished buffer on the err==nil edge and returns the flush error; the four variants funnel into one executor with receiver and context unchanged and return the buffer content untransformed; every err.(*Error) assertion is proven by the concrete types the operand can hold",
             "that the unbuffered variant writes only a leading part of the successful output", "DESIGN.md §3 C14"),
     "C20": ("lock-region must-dataflow, path-guard queries and call-graph reachability over go/ssa",
-            "cache map accessed only under the set mutex; Lock/Unlock paired on all exits; lookup and fill in one critical section; fill only on the err==nil edge and never in Debug mode; lookup/fill/delete agree on the normalised key; no re-entry into the mutex from inside the critical section; per-set state freshly allocated per instance",
+            "cache map accessed only under the set mutex; Lock/Unlock paired on all exits; lookup and fill in one critical section; fill only on the err==nil edge and never in Debug mode; lookup/fill/delete agree on the normalised key; no re-entry into the mutex from inside the critical section; per-set state freshly allocated per instance; CleanCache clears everything exactly when given no name, deletes each given name and branches on no other set state",
             "the number of loader fetches under a concrete schedule", "DESIGN.md §3 C20"),
 }
 
